@@ -407,11 +407,16 @@ theorem CounterAbove.congr (reg : Reg W) (g g' : Genome W)
 
 /-- a skeleton-preserving step whose trait references still resolve keeps every C01 invariant of the genome -/
 theorem SameSkel.wft {g g' : Genome W} (h : SameSkel g g') (hr : TraitRefsOwned g') (hw : WFT g) : WFT g' := by
-  refine ⟨WF.congr g g' h.inns h.links h.nodes h.tids hr hw.wf, ?_⟩
-  intro t ht
-  have : t.id ∈ traitIds g := by rw [← h.tids]; exact List.mem_map_of_mem ht
-  obtain ⟨t0, ht0, e⟩ := List.mem_map.mp this
-  rw [← e]; exact hw.tnz t0 ht0
+  refine ⟨WF.congr g g' h.inns h.links h.nodes h.tids hr hw.wf, ?_, ?_⟩
+  · intro t ht
+    have : t.id ∈ traitIds g := by rw [← h.tids]; exact List.mem_map_of_mem ht
+    obtain ⟨t0, ht0, e⟩ := List.mem_map.mp this
+    rw [← e]; exact hw.tnz t0 ht0
+  · intro n hn
+    obtain ⟨m, hm, e⟩ := exists_of_map_eq Node.shape h.nodes hn
+    unfold Node.shape at e
+    simp only [Prod.mk.injEq] at e
+    rw [← e.2]; exact hw.kinds m hm
 
 theorem SameSkel.retains {g g' : Genome W} (h : SameSkel g g') : Retains g g' := Retains.of_shape g g' h.nodes
 
